@@ -412,6 +412,10 @@ int sim_bind(int fd, const struct sockaddr *addr, socklen_t len)
     (void)len;
     if (!e || !e->k) { errno = EBADF; return -1; }
     if (e->k->type != KO_RAWSOCK || e->k->bound) { errno = EINVAL; return -1; }
+    { int f = fault_next(FC_BIND);       /* scripted: the address is taken by a process outside the simulation, or the directory is not writable */
+      if (f >= 0 && (F_OUT(f) == FO_EADDRINUSE || F_OUT(f) == FO_EACCES)) {
+          fault_fired(FC_BIND, F_OUT(f)); tr_printf("bind fd%d -> %s (scripted)", fd, fo_names[F_OUT(f)]);
+          errno = F_OUT(f) == FO_EACCES ? EACCES : EADDRINUSE; return -1; } }
     for (int i = 0; i < nbound; i++) if (!strncmp(bound_paths[i].path, un->sun_path, 107)) { tr_printf("bind fd%d -> EADDRINUSE", fd); errno = EADDRINUSE; return -1; }
     if (nbound >= MAXPATHS) { errno = ENOSPC; return -1; }
     snprintf(bound_paths[nbound].path, 108, "%.107s", un->sun_path);
@@ -429,6 +433,8 @@ int sim_listen(int fd, int n)
     if (!e || !e->k) { errno = EBADF; return -1; }
     if (e->k->type != KO_RAWSOCK && e->k->type != KO_LISTENER) { errno = EOPNOTSUPP; return -1; }
     if (!e->k->bound) { errno = EINVAL; return -1; }      /* AF_UNIX: listen on an unbound socket fails */
+    { int f = fault_next(FC_LISTEN);
+      if (f >= 0 && F_OUT(f) == FO_EADDRINUSE) { fault_fired(FC_LISTEN, FO_EADDRINUSE); tr_printf("listen fd%d -> EADDRINUSE (scripted)", fd); errno = EADDRINUSE; return -1; } }
     e->k->type = KO_LISTENER;
     e->k->backlog_max = n < 1 ? 1 : n > 15 ? 15 : n; simfd_progress++;
     tr_printf("listen fd%d", fd);
@@ -449,6 +455,8 @@ int sim_connect(int fd, const struct sockaddr *addr, socklen_t len)
     if (k->type == KO_SOCK) { errno = EISCONN; return -1; }
     if (k->type != KO_RAWSOCK) { errno = EINVAL; return -1; }
     for (int i = 0; i < nbound; i++) if (!strncmp(bound_paths[i].path, un->sun_path, 107)) l = bound_paths[i].owner;
+    { int f = fault_next(FC_CONNECT);
+      if (f >= 0 && F_OUT(f) == FO_ECONNREFUSED) { fault_fired(FC_CONNECT, FO_ECONNREFUSED); tr_printf("connect fd%d -> ECONNREFUSED (scripted)", fd); errno = ECONNREFUSED; return -1; } }
     if (!l) { tr_printf("connect fd%d -> ENOENT", fd); errno = ENOENT; return -1; }
     if (l->type != KO_LISTENER) { tr_printf("connect fd%d -> ECONNREFUSED", fd); errno = ECONNREFUSED; return -1; }
     if (l->nbacklog > l->backlog_max) {
